@@ -768,7 +768,8 @@ def process_fn(unit, lines, i, arg, rel_tpl):
     # change stops using a parameter and underscores it
     for mm in list(re.finditer(r'[(,]\s*(?:mut\s+)?_([A-Za-z]\w*)\s*:', sig)):
         bare = mm.group(1)
-        if re.search(r'(?<![\w])' + bare + r'(?![\w])', sig) or re.search(r'(?<![\w])' + bare + r'(?![\w])', body):
+        # (occurrences in comments do not count: "the output is positive" must not keep `_output` from being named `output`)
+        if re.search(r'(?<![\w])' + bare + r'(?![\w])', sig) or re.search(r'(?<![\w])' + bare + r'(?![\w])', strip_comments(body)):
             continue
         sig = tokens_rename(sig, {'_' + bare: bare}, {})
         body = tokens_rename(body, {'_' + bare: bare}, {})
